@@ -427,6 +427,19 @@ func (e *Enc) loadLoc(st *State, l *Loc) *Val {
 			e.assertRange("(<= " + v.L[i].T + " " + v.L[i+1].T + ")")
 		}
 	}
+	// slice values held in memory are well-formed slices (type invariant of every Go slice value): 0 <= off, 0 <= len <= cap
+	for i := 0; i+3 < len(leaves); i++ {
+		if _, isSlice := leaves[i].T.Underlying().(*types.Slice); !isSlice || !strings.HasSuffix(leaves[i].Path, ".base") && leaves[i].Path != "base" {
+			continue
+		}
+		pre := strings.TrimSuffix(leaves[i].Path, "base")
+		if leaves[i+1].Path == pre+"off" && leaves[i+2].Path == pre+"len" && leaves[i+3].Path == pre+"cap" {
+			f := "(and (<= 0 " + v.L[i+1].T + ") (<= 0 " + v.L[i+2].T + ") (<= " + v.L[i+2].T + " " + v.L[i+3].T + ") (<= " + v.L[i+3].T + " 9223372036854775807))"
+			if !strings.Contains(f, "|q!") {
+				e.assertTyping(f)
+			}
+		}
+	}
 	return v
 }
 
@@ -572,7 +585,37 @@ func (e *Enc) freshVal(st *State, hint string, t types.Type) *Val {
 		}
 	}
 	e.sliceWellFormed(v)
+	e.nestedSlicesWellFormed(v)
 	return v
+}
+
+// nestedSlicesWellFormed: slice-typed components of a tuple / struct value (four consecutive leaves base, off, len, cap
+// of one slice type) satisfy len <= cap and "nil base => empty", like top-level slice values.
+func (e *Enc) nestedSlicesWellFormed(v *Val) {
+	if v.T == nil {
+		return
+	}
+	if _, ok := v.T.Underlying().(*types.Slice); ok {
+		return // handled by sliceWellFormed
+	}
+	sh := e.TI.shape(v.T)
+	if len(sh) != len(v.L) {
+		return
+	}
+	for i := 0; i+3 < len(sh); i++ {
+		if _, isSlice := sh[i].T.Underlying().(*types.Slice); !isSlice {
+			continue
+		}
+		p := sh[i].Path
+		if !strings.HasSuffix(p, ".base") {
+			continue
+		}
+		pre := strings.TrimSuffix(p, ".base")
+		if sh[i+1].Path == pre+".off" && sh[i+2].Path == pre+".len" && sh[i+3].Path == pre+".cap" {
+			e.assert("(and (<= " + v.L[i+2].T + " " + v.L[i+3].T + ") (<= " + v.L[i+3].T + " 9223372036854775807))")
+			e.assert("(=> (= " + v.L[i].T + " 0) (= " + v.L[i+2].T + " 0))")
+		}
+	}
 }
 
 // sliceWellFormed asserts 0<=len<=cap for every slice-shaped group of leaves in v (when v itself is a slice).
@@ -581,7 +624,7 @@ func (e *Enc) sliceWellFormed(v *Val) {
 		return
 	}
 	if _, ok := v.T.Underlying().(*types.Slice); ok && len(v.L) == 4 {
-		e.assert("(and (<= 0 " + v.L[1].T + ") (<= 0 " + v.L[2].T + ") (<= " + v.L[2].T + " " + v.L[3].T + "))")
+		e.assert("(and (<= 0 " + v.L[1].T + ") (<= 0 " + v.L[2].T + ") (<= " + v.L[2].T + " " + v.L[3].T + ") (<= " + v.L[3].T + " 9223372036854775807))")
 		e.assert("(=> (= " + v.L[0].T + " 0) (= " + v.L[2].T + " 0))")
 	}
 }
